@@ -25,6 +25,11 @@ def split_columns(row, col):
             if pos + c.w > col:
                 ok = False
         else:
+            if not right and left and left[-1].ch[:1] == ' ' and len(left[-1].ch) > 1:
+                # zero-width characters that open the right panel were joined to the padding blank before them
+                last = left[-1]
+                left[-1] = term.Cell(' ', last.w, last.fg, last.bg, last.attrs, last.link)
+                right.append(term.Cell(last.ch[1:], 0, last.fg, last.bg, last.attrs, last.link))
             right.append(c)
         pos += c.w
     return left, right, ok
